@@ -27,7 +27,7 @@ PROPS = {
                 explanation="water_inv as inductive invariant of each process", trusted_base=[]),
     "C04": dict(bounded=dict(module="water_monitors.py", args=["--property", "C04"]), functions=["drainage", "irrigation", "infiltration", "capillary_rise", "groundwater_inflow", "pre_irrigation", "aeration_stress", "soil_evaporation", "transpiration", "canopy_cover", "root_zone_water", "solution_single_time_step"], level="proof",
                 explanation="sign / ordering postconditions", trusted_base=[]),
-    "C13": dict(bounded=dict(module="water_monitors.py", args=["--property", "C13"]), functions=["irrigation", "root_zone_water", "pre_irrigation", "growth_stage", "transpiration", "solution_single_time_step"], level="proof",
+    "C13": dict(bounded=dict(module="water_monitors.py", args=["--property", "C13"]), functions=["growth_stage", "reset_initial_conditions#body", "irrigation", "root_zone_water", "pre_irrigation", "growth_stage", "transpiration", "solution_single_time_step"], level="proof",
                 explanation="per-strategy postconditions of irrigation(), callee contract of root_zone_water", trusted_base=[]),
     "C19": dict(bounded=dict(module="water_monitors.py", args=["--property", "C19"]), functions=["check_groundwater_table", "capillary_rise", "groundwater_inflow", "solution_single_time_step"], level="proof",
                 explanation="adjusted field capacity range / far table / saturation below the table / no table => zero fluxes", trusted_base=[]),
@@ -53,7 +53,7 @@ PROPS = {
                             "trajectory by min(k, steps-to-termination) and reports finished exactly at termination, so every partition of a run ends in the same "
                             "state T^N(s0); bitwise equality of tables across partitions is additionally monitored by the BOUNDED stand-in",
                 trusted_base=["AquaCropModel._perform_timestep: abstract deterministic step (assumed; frame/determinism shared with C10)"]),
-    "C07": dict(functions=["germination", "HIref_current_day", "solution_single_time_step", "check_model_is_finished", "update_time", "AquaCropModel._perform_timestep#body", "AquaCropModel.run_model"], level="other", bounded=dict(module="c07_schedule.py"),
+    "C07": dict(functions=["reset_initial_conditions#body", "germination", "HIref_current_day", "solution_single_time_step", "check_model_is_finished", "update_time", "AquaCropModel._perform_timestep#body", "AquaCropModel.run_model"], level="other", bounded=dict(module="c07_schedule.py"),
                 explanation="BOUNDED: schedule produced by the pandas initialisers and whole-run calendar facts checked on an enumerated lattice of windows / planting dates / crops"),
     "C16": dict(functions=['growing_degree_day', 'water_stress', 'temperature_stress', 'aeration_stress', 'cc_development', 'cc_required_time', 'drainage', 'pre_irrigation', 'rainfall_partition', 'root_zone_water', 'irrigation', 'infiltration', 'check_groundwater_table', 'capillary_rise', 'groundwater_inflow', 'evap_layer_water_content', 'soil_evaporation', 'transpiration', 'germination', 'growth_stage', 'canopy_cover', 'HIref_current_day', 'HIadj_pre_anthesis', 'HIadj_pollination', 'HIadj_post_anthesis', 'harvest_index', 'biomass_accumulation', 'solution_single_time_step', 'check_model_is_finished', 'update_time', 'AquaCropModel._perform_timestep#body', 'AquaCropModel.run_model', 'calculate_HIGC', 'calculate_HI_linear', 'reset_initial_conditions#body', 'root_development#body'], level="other", safety=True, crosscheck=True, catalogue=True, bounded=[dict(module="c16_completion.py"), dict(module="soil_assumptions.py"), dict(module="deepening.py")],
                 explanation="E1: the safety obligations (definite assignment, non-zero divisors, positive log arguments, non-negative power bases, index bounds, asserts, "
